@@ -39,6 +39,24 @@ static void run(const Case &c) {
     std::vector<int> order, perm;
     if (c.count("order")) for (auto &s : orc::split(c.at("order"), ',')) order.push_back(atoi(s.c_str()));
     if (c.count("perm")) for (auto &s : orc::split(c.at("perm"), ',')) perm.push_back(atoi(s.c_str()));
+    // optional: reproduce a given relative address order of the edge property nodes (layout=<rank of edge 0>,<rank of edge 1>,...),
+    // which decides the order of std::set<Edge> inside parmcb: free a sorted batch of node-sized blocks so that the allocator's
+    // LIFO free list hands them out in the requested order to the insertions below
+    if (c.count("layout") && t.m() > 0) {
+        typedef std::_List_node<typename Graph::EdgeContainer::value_type> EdgeNode;
+        std::vector<int> rank_of;                       // rank of topology edge i
+        for (auto &s : orc::split(c.at("layout"), ',')) rank_of.push_back(atoi(s.c_str()));
+        int m = t.m();
+        if ((int) rank_of.size() == m) {
+            std::vector<char *> blocks;
+            for (int i = 0; i < m; i++) blocks.push_back((char *) ::operator new(sizeof(EdgeNode)));
+            std::sort(blocks.begin(), blocks.end());
+            for (int k = m - 1; k >= 0; k--) {
+                int i = order.empty() ? k : order[k];     // k-th insertion is topology edge i
+                ::operator delete(blocks[rank_of[i]]);
+            }
+        }
+    }
     Graph g;
     for (int v = 0; v < n; v++) boost::add_vertex(g);
     std::vector<Edge> eidx(t.m());
